@@ -86,9 +86,10 @@ def gen_case(rng, k, tier):
     elif kind == "NPD":
         name = "a.b.NPD"
     elif kind == "snp":
-        name = "dir.x/a.s%dp" % ports
+        # the extension is what follows the LAST dot of the last path component
+        name = rng.choice(["dir.x/a.s%dp", "dir.x/amp_rev1.2.s%dp", "amp.25degC.s%dp"]) % ports
     elif kind == "ts":
-        name = "a.ts"
+        name = rng.choice(["a.ts", "run.3/amp.v2.ts", "b.npd.ts"])
     elif kind == "set_ts1":
         name, setft = "data", D.FT_TS1
     elif kind == "set_ts2":
@@ -96,7 +97,7 @@ def gen_case(rng, k, tier):
     elif kind == "set_npd":
         name, setft = "data.out", D.FT_NPD
     elif kind == "ts_keep_ts1":
-        name, setft = "a.ts", D.FT_TS1
+        name, setft = rng.choice(["a.ts", "x.y/a.1.ts"]), D.FT_TS1
     else:
         name = "noextension"
     touch = kind in ("snp", "ts", "set_ts1", "set_ts2", "ts_keep_ts1")
